@@ -242,12 +242,13 @@ UnrawFrom(s, i, atStart) ==
   ELSE <<s[i]>> \o UnrawFrom(s, i + 1, i >= 2 /\ s[i] = 58 /\ s[i - 1] = 58)
 Unraw(s) == UnrawFrom(s, 1, TRUE)
 
-\* module path as module_path!() spells it: components joined by "::"
+\* module path as module_path!() spells it: components joined by "::"; the internal raw name
+\* likewise without the prefix (it is not observable beyond matching a group to its module)
 WrittenMeta(e) ==
-  [mp |-> Unraw(JoinAll(e.mods_cp)), raw |-> e.raw_cp, disp |-> EntryDisplay(e),
+  [mp |-> Unraw(JoinAll(e.mods_cp)), raw |-> StripRaw(e.raw_cp), disp |-> EntryDisplay(e),
    file |-> e.file_cp, line |-> e.line, col |-> e.col, opts |-> NormOpts(e.opts_rec)]
 DumpedMeta(e) ==
-  [mp |-> Unraw(e.module_path_cp), raw |-> e.raw_name_cp, disp |-> e.display_name_cp,
+  [mp |-> Unraw(e.module_path_cp), raw |-> StripRaw(e.raw_name_cp), disp |-> e.display_name_cp,
    file |-> e.file_cp, line |-> e.line, col |-> e.col, opts |-> NormOpts(e.opts)]
 
 \* a benchmark function without types / consts: one entry; with `args` one case per value, in order
